@@ -178,13 +178,14 @@ def neDepth (a b : Node) : Nat := 1 + eqDepth a b
     on. Each of them is compared with `c.parent = P` (unequal: popped), then `P` with itself (same object). -/
 
 mutual
-/-- the tags below-or-equal `k` still on `tag_stack` when the element after `k`'s subtree arrives -/
-def spine : Node → List Node
+/-- the tags below-or-equal `k` still on `tag_stack` when the element after `k`'s subtree arrives, in stack order
+    (deepest first) -/
+def spineD : Node → List Node
   | .str _ => []
-  | .tag n a kx v ks => if v && ks.isEmpty then [] else (.tag n a kx v ks) :: spineLast ks
-def spineLast : List Node → List Node
+  | .tag n a kx v ks => if v && ks.isEmpty then [] else spineDL ks ++ [.tag n a kx v ks]
+def spineDL : List Node → List Node
   | [] => []
-  | k :: ks => if ks.isEmpty then spine k else spineLast ks
+  | k :: ks => if ks.isEmpty then spineD k else spineDL ks
 end
 
 /-- one evaluation of `c.parent <cmp> X` for a different object `X` -/
@@ -192,19 +193,112 @@ def cmpCost (cfg : Cfg) (p x : Node) : Nat := if cfg.neIdentity then 0 else neDe
 /-- `c.parent <cmp> c.parent`: `is not` costs nothing; `!=` is `__ne__` → `__eq__` returning at `self is other` -/
 def sameCost (cfg : Cfg) : Nat := if cfg.neIdentity then 0 else 2
 
-/-- the comparisons made while the children of `p` arrive: after each child that has a successor -/
-def evBoundaries (cfg : Cfg) (p : Node) : List Node → Nat
-  | [] => 0
-  | k :: ks => if ks.isEmpty then 0 else max (max (loopMax (spine k) (cmpCost cfg p)) (sameCost cfg)) (evBoundaries cfg p ks)
-
 mutual
-/-- deepest comparison `_event_stream` makes anywhere below (and at) this element -/
+/-- deepest comparison `_event_stream` makes anywhere below (and at) this element, when it is iterated over with its
+    parent on the stack (or as the root of the iteration) -/
 def evCmp (cfg : Cfg) : Node → Nat
   | .str _ => 0
-  | .tag n a kx v ks => max (max (sameCost cfg) (evBoundaries cfg (.tag n a kx v ks) ks)) (evCmpL cfg ks)
-def evCmpL (cfg : Cfg) : List Node → Nat
+  | .tag n a kx v ks => evKids cfg (.tag n a kx v ks) [] ks
+/-- the comparisons made while the children `ks` of `p` arrive; `s` = what the previous child left on the stack above
+    `p` (nothing before the first child): `p` is compared with each of those (different objects: popped), then with
+    itself -/
+def evKids (cfg : Cfg) (p : Node) (s : List Node) : List Node → Nat
   | [] => 0
-  | k :: ks => max (evCmp cfg k) (evCmpL cfg ks)
+  | k :: ks => max (max (loopMax s (cmpCost cfg p)) (sameCost cfg)) (max (evCmp cfg k) (evKids cfg p (spineD k) ks))
+end
+
+/-! #### code mirror of the generator (element.py:2480-2504), statement by statement
+
+    Elements carry their object identity (`id` = position in document order below the root of the iteration, the root
+    is 0) and the identity of `.parent`. `tag_stack` holds identities (with the subtree, for the structural `!=`). The
+    TEST `c.parent <cmp> tag_stack[-1]` is decided by identity in both variants — for the two objects compared here
+    (an element's parent and a tag still open below it, i.e. one contained in the other) structural inequality
+    coincides with non-identity, their sizes differ (`beqN_sizeN`); the variants differ in what the test COSTS. -/
+
+/-- an element as the loop sees it -/
+structure Elem where
+  id : Nat
+  parent : Nat
+  node : Node
+  parentNode : Node
+
+mutual
+/-- `self_and_descendants` of a subtree whose root has identity `i` and parent `(pid, pn)`: document order -/
+def flatN (pid : Nat) (pn : Node) (i : Nat) : Node → List Elem
+  | .str v => [⟨i, pid, .str v, pn⟩]
+  | .tag n a kx v ks => ⟨i, pid, .tag n a kx v ks, pn⟩ :: flatL i (.tag n a kx v ks) (i + 1) ks
+def flatL (pid : Nat) (pn : Node) (j : Nat) : List Node → List Elem
+  | [] => []
+  | k :: ks => flatN pid pn j k ++ flatL pid pn (j + sizeN k) ks
+end
+
+/-- the events `_event_stream` yields (with the identity of the element) -/
+inductive Evt where
+  | start (id : Nat)
+  | «end» (id : Nat)
+  | empty (id : Nat)
+  | string (id : Nat)
+deriving Repr, DecidableEq
+
+abbrev TagStack := List (Nat × Node)      -- top first
+
+def ends (s : TagStack) : List Evt := s.map (fun x => Evt.end x.1)
+
+/-- `while tag_stack and c.parent <cmp> tag_stack[-1]: now_closed_tag = tag_stack.pop(); yield END, now_closed_tag`
+    → (stack afterwards, END events, deepest comparison) -/
+def closeWhile (cfg : Cfg) (c : Elem) : TagStack → TagStack × List Evt × Nat
+  | [] => ([], [], 0)                                         -- `tag_stack` empty: the test is not evaluated
+  | (tid, tn) :: rest =>
+    if c.parent = tid then ((tid, tn) :: rest, [], sameCost cfg)            -- same object: the loop ends
+    else
+      let (st, evs, cost) := closeWhile cfg c rest
+      (st, Evt.end tid :: evs, max (cmpCost cfg c.parentNode tn) cost)
+
+/-- the body of `for c in iterator:` -/
+def evStep (cfg : Cfg) (st : TagStack) (c : Elem) : TagStack × List Evt × Nat :=
+  let (st1, closed, cost) := closeWhile cfg c st
+  match c.node with
+  | .str _ => (st1, closed ++ [Evt.string c.id], cost)                       -- `yield STRING_ELEMENT_EVENT, c`
+  | .tag _ _ _ v ks =>
+    if v && ks.isEmpty then (st1, closed ++ [Evt.empty c.id], cost)          -- `if c.is_empty_element: yield EMPTY…`
+    else ((c.id, c.node) :: st1, closed ++ [Evt.start c.id], cost)           -- `yield START…; tag_stack.append(c)`
+
+def evRun (cfg : Cfg) : TagStack → List Elem → TagStack × List Evt × Nat
+  | st, [] => (st, [], 0)
+  | st, c :: cs =>
+    let (st1, e1, c1) := evStep cfg st c
+    let (st2, e2, c2) := evRun cfg st1 cs
+    (st2, e1 ++ e2, max c1 c2)
+
+/-- the whole generator on `self.self_and_descendants`, including the final `while tag_stack: pop; yield END` -/
+def eventStreamImpl (cfg : Cfg) (t : Node) : List Evt × Nat :=
+  let (st, evs, cost) := evRun cfg [] (flatN 0 t 0 t)        -- the root's own parent is never looked at (empty stack)
+  (evs ++ ends st, cost)
+
+/-- the comparisons made while the top-level elements `ks` arrive when the root of the iteration is NOT itself part of
+    it (`decode_contents`: `iterator=self.descendants`; any hidden receiver — the BeautifulSoup object —, which
+    `_self_and` leaves out, element.py:1236-1243): `p` is never on the stack, so everything the previous element left
+    open is compared with it and popped, and there is no comparison of `p` with itself -/
+def evKidsTop (cfg : Cfg) (p : Node) (s : List Node) : List Node → Nat
+  | [] => 0
+  | k :: ks => max (loopMax s (cmpCost cfg p)) (max (evCmp cfg k) (evKidsTop cfg p (spineD k) ks))
+
+/-- deepest comparison of the contents form -/
+def evCmpContents (cfg : Cfg) (t : Node) : Nat := evKidsTop cfg t [] (kidsOf t)
+
+/-- the generator on `self.descendants` (the receiver itself is not iterated over) -/
+def eventStreamContentsImpl (cfg : Cfg) (t : Node) : List Evt × Nat :=
+  let (st, evs, cost) := evRun cfg [] (flatL 0 t 1 (kidsOf t))
+  (evs ++ ends st, cost)
+
+mutual
+/-- what the stream means: the obvious recursive rendering skeleton -/
+def evSpecN (i : Nat) : Node → List Evt
+  | .str _ => [Evt.string i]
+  | .tag _ _ _ v ks => if v && ks.isEmpty then [Evt.empty i] else Evt.start i :: (evSpecL (i + 1) ks ++ [Evt.end i])
+def evSpecL (j : Nat) : List Node → List Evt
+  | [] => []
+  | k :: ks => evSpecN j k ++ evSpecL (j + sizeN k) ks
 end
 
 /-- `_last_descendant` (element.py:656-682): a loop down the last children -/
@@ -217,6 +311,10 @@ def descGenDepth (l : Loc) : Nat := call (max (lastDescDepth l.node) (loop0 (des
     comparison -/
 def eventStreamDepth (cfg : Cfg) (l : Loc) : Nat :=
   call (max (call (descGenDepth l)) (evCmp cfg l.node))
+
+/-- the generator on `self.descendants` (`decode_contents`, `__deepcopy__`, and every hidden receiver) -/
+def eventStreamContentsDepth (cfg : Cfg) (l : Loc) : Nat :=
+  call (max (descGenDepth l) (evCmpContents cfg l.node))
 
 /-! ### `_is_xml` (element.py:468-488) and `formatter_for_name` (:439-465) -/
 
@@ -245,6 +343,10 @@ def renderPiece (l : Loc) : Nat :=
 def decodeDepth (cfg : Cfg) (l : Loc) : Nat :=
   call (max (formatterForNameDepth cfg l) (max (eventStreamDepth cfg l) (loopMax (selfAndDescs l) renderPiece)))
 
+/-- `Tag.decode(iterator=self.descendants)` and `decode` of a hidden receiver (the BeautifulSoup object) -/
+def decodeBodyDepth (cfg : Cfg) (l : Loc) : Nat :=
+  call (max (formatterForNameDepth cfg l) (max (eventStreamContentsDepth cfg l) (loopMax (descs l.anc l.node) renderPiece)))
+
 /-- `encode` = `decode` then `str.encode` (C) -/
 def encodeDepth (cfg : Cfg) (l : Loc) : Nat := call (decodeDepth cfg l)
 /-- `prettify(encoding)` → `encode(indent_level=0)` → `decode`; `prettify()` → `decode` -/
@@ -254,10 +356,10 @@ def strDepth (cfg : Cfg) (l : Loc) : Nat := call (decodeDepth cfg l)
 /-- `__hash__ = str(self).__hash__()` -/
 def hashDepth (cfg : Cfg) (l : Loc) : Nat := call (strDepth cfg l)
 /-- `decode_contents` → `decode(iterator=self.descendants)`; `encode_contents` one more -/
-def decodeContentsDepth (cfg : Cfg) (l : Loc) : Nat := call (decodeDepth cfg l)
+def decodeContentsDepth (cfg : Cfg) (l : Loc) : Nat := call (decodeBodyDepth cfg l)
 def encodeContentsDepth (cfg : Cfg) (l : Loc) : Nat := call (decodeContentsDepth cfg l)
 /-- `BeautifulSoup.decode` → `Tag.decode` -/
-def docDecodeDepth (cfg : Cfg) (l : Loc) : Nat := call (decodeDepth cfg l)
+def docDecodeDepth (cfg : Cfg) (l : Loc) : Nat := call (decodeBodyDepth cfg l)
 
 /-! ### copying (element.py:1760-1812, 493-500, 1309-1321; bs4/__init__.py:492-503) -/
 
@@ -265,59 +367,80 @@ def docDecodeDepth (cfg : Cfg) (l : Loc) : Nat := call (decodeDepth cfg l)
 def copySelfDepth (cfg : Cfg) (isDoc : Bool) (l : Loc) : Nat :=
   call (max (isXmlDepth cfg (kxOf l.node) l.anc) (call (if isDoc then cSoupInit else cTagInit)))
 
-/-! ### the editing primitives (element.py:586-632, 656-682, 1918-2026, 2153-2164) -/
+/-! ### the editing primitives (element.py:552-747, 1918-2164)
 
-/-- `Tag.index`: a loop of `is` tests over the parent's contents -/
-def indexDepth (sibs : List Node) : Nat := call (loop0 sibs)
+    Wherever the editing code tests whether two elements are THE SAME OBJECT (`child is element` in `index`,
+    `args[0] is self` / `x is self.parent` in `replace_with`, `x is self` in `insert_before`/`insert_after`,
+    `new_child is self` in `_insert`) the accounting charges `ts a b`, the cost of one such test: nothing for the
+    identity test the code uses (`idTest`), a call into `Tag.__eq__` if it were written with `==` (`eqTest`). -/
+
+/-- the cost of one "are these two elements the same?" test -/
+abbrev Test := Node → Node → Nat
+
+/-- `a is b` -/
+def idTest : Test := fun _ _ => 0
+
+/-- `a == b` on two different objects: `Tag.__eq__` (strings compare in C) -/
+def eqTest : Test := fun a b => eqDepth a b
+
+/-- `Tag.index`: a loop of tests over the parent's contents -/
+def indexDepth (ts : Test) (sibs : List Node) (target : Node) : Nat := call (loopMax sibs (fun s => ts s target))
 
 /-- `extract`: `parent.index(self)`, `_last_descendant()`, pointer writes -/
-def extractDepth (l : Loc) : Nat := call (max (indexDepth l.sibs) (lastDescDepth l.node))
+def extractDepth (ts : Test) (l : Loc) : Nat := call (max (indexDepth ts l.sibs l.node) (lastDescDepth l.node))
 
-/-- `_insert(position, new_child)` of one element that is not a BeautifulSoup object: `NavigableString(...)`,
-    `self.index`, `new_child.extract()`, `previous_child._last_descendant(False)`, `new_child._last_descendant(…)`,
-    and the `while parents_next_sibling is None and parent is not None` loop up the ancestors -/
-def insertOneDepth (l : Loc) (newChild : Loc) : Nat :=
-  call (max (call cStrNew) (max (indexDepth (kidsOf l.node)) (max (extractDepth newChild)
-    (max (loopMax (kidsOf l.node) lastDescDepth) (max (lastDescDepth newChild.node) (loop0 l.anc))))))
+/-- `_insert(position, new_child)` of one element that is not a BeautifulSoup object: `new_child is self`,
+    `NavigableString(...)`, `self.index(new_child)`, `new_child.extract()`, `previous_child._last_descendant(False)`,
+    `new_child._last_descendant(…)`, and the `while parents_next_sibling is None and parent is not None` loop up the
+    ancestors -/
+def insertOneDepth (ts : Test) (l : Loc) (newChild : Loc) : Nat :=
+  call (max (ts newChild.node l.node) (max (call cStrNew) (max (indexDepth ts (kidsOf l.node) newChild.node)
+    (max (extractDepth ts newChild)
+      (max (loopMax (kidsOf l.node) lastDescDepth) (max (lastDescDepth newChild.node) (loop0 l.anc)))))))
 
-/-- `insert(position, *new_children)`: a loop of `_insert` + `index`; a BeautifulSoup argument makes `_insert` call
-    `insert` once more with the document's children (which are not documents) -/
-def insertDepth (l : Loc) (args : List Loc) (argIsDoc : Bool) : Nat :=
-  let plain := call (max (loopMax args (insertOneDepth l)) (indexDepth (kidsOf l.node)))
+/-- `insert(position, *new_children)`: a loop of `_insert` + `index(just_inserted[-1])`; a BeautifulSoup argument makes
+    `_insert` call `insert` once more with the document's children (which are not documents) -/
+def insertDepth (ts : Test) (l : Loc) (args : List Loc) (argIsDoc : Bool) : Nat :=
+  let plain := call (loopMax args (fun a => max (insertOneDepth ts l a) (indexDepth ts (a.node :: kidsOf l.node) a.node)))
   if argIsDoc then call (call plain) else plain
 
-def appendDepth (l : Loc) (arg : Loc) (argIsDoc : Bool) : Nat := call (insertDepth l [arg] argIsDoc)
+def appendDepth (ts : Test) (l : Loc) (arg : Loc) (argIsDoc : Bool) : Nat := call (insertDepth ts l [arg] argIsDoc)
 
 /-- `extend`: list(...) then a loop of `append` -/
-def extendDepth (l : Loc) (args : List Loc) : Nat := call (loopMax args (fun a => appendDepth l a false))
+def extendDepth (ts : Test) (l : Loc) (args : List Loc) : Nat := call (loopMax args (fun a => appendDepth ts l a false))
 
-/-- `replace_with`: `parent.index`, `extract`, `old_parent.insert` -/
-def replaceWithDepth (parent l : Loc) (args : List Loc) : Nat :=
-  call (max (indexDepth l.sibs) (max (extractDepth l) (insertDepth parent args false)))
+/-- `replace_with`: `args[0] is self`, `any(x is self.parent for x in args)`, `parent.index`, `extract`,
+    `old_parent.insert` -/
+def replaceWithDepth (ts : Test) (parent l : Loc) (args : List Loc) : Nat :=
+  call (max (loopMax (args.take 1) (fun a => ts a.node l.node))
+    (max (loopMax args (fun a => ts a.node parent.node))
+      (max (indexDepth ts l.sibs l.node) (max (extractDepth ts l) (insertDepth ts parent args false)))))
 
 /-- `wrap`: `replace_with`, then `wrap_inside.append(me)` -/
-def wrapDepth (parent l wrapper : Loc) : Nat :=
-  call (max (replaceWithDepth parent l [wrapper]) (appendDepth wrapper l false))
+def wrapDepth (ts : Test) (parent l wrapper : Loc) : Nat :=
+  call (max (replaceWithDepth ts parent l [wrapper]) (appendDepth ts wrapper l false))
 
 /-- `unwrap`: `index`, `extract`, a loop of `insert` over the (reversed) children -/
-def unwrapDepth (parent l : Loc) : Nat :=
-  call (max (indexDepth l.sibs) (max (extractDepth l)
-    (loopMax (kidsOf l.node) (fun k => insertDepth parent [⟨parent.anc, [], k⟩] false))))
+def unwrapDepth (ts : Test) (parent l : Loc) : Nat :=
+  call (max (indexDepth ts l.sibs l.node) (max (extractDepth ts l)
+    (loopMax (kidsOf l.node) (fun k => insertDepth ts parent [⟨parent.anc, [], k⟩] false))))
 
-/-- `insert_before` / `insert_after`: per argument `extract`, `parent.index`, `parent.insert` -/
-def insertBesideDepth (parent l : Loc) (args : List Loc) : Nat :=
-  call (loopMax args (fun a => max (extractDepth a) (max (indexDepth l.sibs) (insertDepth parent [a] false))))
+/-- `insert_before` / `insert_after`: `any(x is self for x in args)`, then per argument `extract`, `parent.index`,
+    `parent.insert` -/
+def insertBesideDepth (ts : Test) (parent l : Loc) (args : List Loc) : Nat :=
+  call (max (loopMax args (fun a => ts a.node l.node))
+    (loopMax args (fun a => max (extractDepth ts a) (max (indexDepth ts l.sibs l.node) (insertDepth ts parent [a] false)))))
 
 /-- `decompose`: `extract`, then a pointer loop along `next_element` clearing every `__dict__` -/
-def decomposeDepth (l : Loc) : Nat := call (max (extractDepth l) (loop0 (selfAndDescs l)))
+def decomposeDepth (ts : Test) (l : Loc) : Nat := call (max (extractDepth ts l) (loop0 (selfAndDescs l)))
 
 /-- `clear(decompose)`: a loop over a copy of the children -/
-def clearDepth (l : Loc) (dec : Bool) : Nat :=
-  call (loopMax (kidLocs l) (fun k => if dec then decomposeDepth k else extractDepth k))
+def clearDepth (ts : Test) (l : Loc) (dec : Bool) : Nat :=
+  call (loopMax (kidLocs l) (fun k => if dec then decomposeDepth ts k else extractDepth ts k))
 
 /-- the `string` setter: `clear()`, then `append(new_class(string))` -/
-def stringSetDepth (l : Loc) : Nat :=
-  call (max (clearDepth l false) (max (call cStrNew) (appendDepth l ⟨[], [], .str 0⟩ false)))
+def stringSetDepth (ts : Test) (l : Loc) : Nat :=
+  call (max (clearDepth ts l false) (max (call cStrNew) (appendDepth ts l ⟨[], [], .str 0⟩ false)))
 
 /-! ### `Tag.__deepcopy__` / `__copy__` -/
 
@@ -328,10 +451,10 @@ def deepcopyPiece (cfg : Cfg) (d : Loc) : Nat :=
   max (match d.node with
        | .str _ => call cStrNew
        | .tag .. => call (copySelfDepth cfg false d))
-      (appendDepth ⟨[], [], .tag 0 0 true false []⟩ ⟨[], [], .str 0⟩ false)
+      (appendDepth idTest ⟨[], [], .tag 0 0 true false []⟩ ⟨[], [], .str 0⟩ false)
 
 def deepcopyDepth (cfg : Cfg) (isDoc : Bool) (l : Loc) : Nat :=
-  call (max (copySelfDepth cfg isDoc l) (max (eventStreamDepth cfg l) (loopMax (descs l.anc l.node) (deepcopyPiece cfg))))
+  call (max (copySelfDepth cfg isDoc l) (max (eventStreamContentsDepth cfg l) (loopMax (descs l.anc l.node) (deepcopyPiece cfg))))
 
 /-- `__copy__` → `__deepcopy__({})`; `copy.copy` itself adds one more -/
 def copyDepth (cfg : Cfg) (isDoc : Bool) (l : Loc) : Nat := call (call (deepcopyDepth cfg isDoc l))
@@ -384,6 +507,21 @@ def matchesTagDepth (cfg : Cfg) (q : Query) : Node → Nat
       call (max (call cRuleMatch) (max (stringDepth cfg (.tag n a kx v ks)) (call cRuleMatch)))
     else call (call cRuleMatch)
 
+/-- does `matches_tag` get as far as `_str = tag.string` for this element? (the conjunction of "no early exit was
+    taken" above — observable on the real code as a read of the `.string` property) -/
+def reachesString (q : Query) : Node → Bool
+  | .str _ => false
+  | .tag n a _ _ _ =>
+    !(q.name.isNone && !q.otherNameRule && q.attrs.isNone) &&
+    !(q.name.isSome && !q.otherNameRule && q.name != some n) &&
+    !(q.name.isSome && q.name != some n && !(q.otherNameRule && q.otherMatches)) &&
+    !(q.name.isNone && q.otherNameRule && !q.otherMatches) &&
+    !(q.attrs.isSome && q.attrs != some a) && q.str
+
+/-- the elements of a subtree (document order, identities as in `flatN`) whose `.string` a search reads -/
+def stringReads (q : Query) (t : Node) : List Nat :=
+  ((flatL 0 t 1 (kidsOf t)).filter (fun e => reachesString q e.node)).map (·.id)
+
 /-- `ElementFilter.match` on one element the generator yielded -/
 def matchDepth (cfg : Cfg) (q : Query) (t : Node) : Nat :=
   match t with
@@ -413,7 +551,7 @@ def findAxisDepth (cfg : Cfg) (q : Query) (vis : List Node) : Nat :=
     strings (no subtree below them) -/
 def smoothWork (l : Loc) : Nat :=
   let s : Loc := ⟨kxOf l.node :: l.anc, kidsOf l.node, .str 0⟩
-  max (extractDepth s) (max (call cStrNew) (replaceWithDepth l s [s]))
+  max (extractDepth idTest s) (max (call cStrNew) (replaceWithDepth idTest l s [s]))
 
 mutual
 /-- the recursive form: `if isinstance(a, Tag): a.smooth()` -/
@@ -462,6 +600,11 @@ structure Names where
   isPre : Nat → Bool
   isSc : Nat → Bool
   outermostOnly : Bool := false
+  /-- `popTag` pops the string-container stack only when it did NOT pop the whitespace stack (`elif` instead of the
+      second `if`, bs4/__init__.py:802): equivalent as long as no name is in both tables; kept in the model to show
+      that the emptiness of the side stacks after a parse — hence what `__getstate__` hands to pickle — depends on the
+      two tests being independent. -/
+  scElif : Bool := false
 
 /-- `tag == stack[-1]` in `popTag` (bs4/__init__.py:797-803): `Tag.__eq__` — same object: one frame; different name:
     one frame; otherwise it would recurse into the (still growing) contents: `deep` stands for whatever that costs -/
@@ -474,30 +617,32 @@ def popEqPops (t : PTag) : List PTag → List PTag
   | p :: rest => if p = t then rest else p :: rest
 
 /-- `popTag`: pops `tagStack`, compares the popped tag with the top of both side stacks -/
-def popTag (deep : Nat) (s : PState) : PState × Nat :=
+def popTag (nm : Names) (deep : Nat) (s : PState) : PState × Nat :=
   match s.stack with
   | [] => (s, call 0)
   | t :: rest =>
-    (⟨rest, popEqPops t s.pre, popEqPops t s.sc, s.next⟩, call (max (popEqCost deep t s.pre) (popEqCost deep t s.sc)))
+    let prePopped := s.pre.head? == some t
+    (⟨rest, popEqPops t s.pre, if nm.scElif && prePopped then s.sc else popEqPops t s.sc, s.next⟩,
+     call (max (popEqCost deep t s.pre) (popEqCost deep t s.sc)))
 
 /-- the `for i in range(stack_size - 1, 0, -1)` loop of `_popToTag` once the name is known to be open: pop until
     (and including) the most recent tag of that name -/
-def popTo (deep : Nat) (name : Nat) : Nat → PState → PState × Nat
+def popTo (nm : Names) (deep : Nat) (name : Nat) : Nat → PState → PState × Nat
   | 0, s => (s, 0)
   | fuel + 1, s =>
     match s.stack with
     | [] => (s, 0)
     | t :: _ =>
-      let (s', c) := popTag deep s
+      let (s', c) := popTag nm deep s
       if t.name = name then (s', c)
       else
-        let (s'', c') := popTo deep name fuel s'
+        let (s'', c') := popTo nm deep name fuel s'
         (s'', max c c')
 
 /-- `_popToTag(name)`: nothing when no tag of that name is open (`open_tag_counter`) -/
-def popToTag (deep : Nat) (name : Nat) (s : PState) : PState × Nat :=
+def popToTag (nm : Names) (deep : Nat) (name : Nat) (s : PState) : PState × Nat :=
   if s.stack.any (fun t => t.name = name) then
-    let (s', c) := popTo deep name s.stack.length s
+    let (s', c) := popTo nm deep name s.stack.length s
     (s', call c)
   else (s, call 0)
 
@@ -514,13 +659,13 @@ def endDataDepth (s : PState) : Nat := call (call (call (max (loop0 s.stack) (ca
 def step (nm : Names) (deep : Nat) (s : PState) : Ev → PState × Nat
   | .text => (s, cTokenizer + call 0)                             -- `handle_data`: `current_data.append`
   | .close name =>
-    let (s', c) := popToTag deep name s
+    let (s', c) := popToTag nm deep name s
     (s', cTokenizer + call (max (endDataDepth s) c))              -- `handle_endtag`: `endData`, `_popToTag`
   | .open name void =>
     let s1 := pushTag nm name s
     let c1 := call (max (endDataDepth s) (max (call cTagInit) (call 0)))   -- `handle_starttag`
     if void then
-      let (s2, c2) := popToTag deep name s1
+      let (s2, c2) := popToTag nm deep name s1
       (s2, cTokenizer + max c1 (call (max (endDataDepth s1) c2)))
     else (s1, cTokenizer + c1)
 
@@ -532,21 +677,39 @@ def run (nm : Names) (deep : Nat) : PState → List Ev → PState × Nat
     (s'', max c c')
 
 /-- the closing `while self.currentTag.name != ROOT_TAG_NAME: self.popTag()` of `_feed` -/
-def popAll (deep : Nat) : Nat → PState → Nat
+def popAll (nm : Names) (deep : Nat) : Nat → PState → Nat
   | 0, _ => 0
   | fuel + 1, s =>
     match s.stack with
     | [] => 0
     | _ :: _ =>
-      let (s', c) := popTag deep s
-      max c (popAll deep fuel s')
+      let (s', c) := popTag nm deep s
+      max c (popAll nm deep fuel s')
 
 def initState : PState := ⟨[], [], [], 0⟩
+
+/-- the state the closing loop of `_feed` leaves -/
+def closeAll (nm : Names) (deep : Nat) : Nat → PState → PState
+  | 0, s => s
+  | fuel + 1, s =>
+    match s.stack with
+    | [] => s
+    | _ :: _ => closeAll nm deep fuel (popTag nm deep s).1
+
+/-- the parser-side state of the document object after `_feed` -/
+def feedState (nm : Names) (deep : Nat) (evs : List Ev) : PState :=
+  let s := (run nm deep initState evs).1
+  closeAll nm deep s.stack.length s
+
+/-- the tree objects the document object's parser attributes still reference after a parse: what is left on
+    `tagStack` above the document object itself, on `preserve_whitespace_tag_stack` and on `string_container_stack`
+    (`_most_recent_element` is deleted by `__getstate__`, `currentTag` is `tagStack[-1]`) -/
+def leftover (s : PState) : List PTag := s.stack ++ s.pre ++ s.sc
 
 /-- `_feed`: `builder.feed(markup)` (every event), `endData`, then close what is still open -/
 def feedDepth (nm : Names) (deep : Nat) (evs : List Ev) : Nat :=
   let (s, c) := run nm deep initState evs
-  call (max c (max (endDataDepth s) (popAll deep s.stack.length s)))
+  call (max c (max (endDataDepth s) (popAll nm deep s.stack.length s)))
 
 /-- `BeautifulSoup(markup, "html.parser")`: constructor → `_feed` -/
 def parseDepth (nm : Names) (deep : Nat) (evs : List Ev) : Nat := call (call (feedDepth nm deep evs))
@@ -563,17 +726,87 @@ end
 
 /-! ### pickling a document (bs4/__init__.py:505-532) -/
 
-/-- default pickling of the state dict: the C pickler recurses into every object it can reach. With the root's
-    `next_element` left in the dict it reaches the first element, from there every other one through
-    `next_element`/`contents`/`parent`: at least one nested `save` per element. With the links dropped the dict holds
-    only flat values. -/
-def picklerWalk (cfg : Cfg) (rootLinked : Bool) (l : Loc) : Nat :=
-  if rootLinked && !cfg.dropLinks then sizeN l.node else 0
+/-- what an attribute of the document object holds, as far as pickling cares: only flat values (None, numbers,
+    strings, classes, the builder, empty containers), the document object itself (possibly in a list: pickle's memo
+    stops there), or tree objects (`k` of them, directly or inside a container) -/
+inductive Val where
+  | flat
+  | self
+  | tree (k : Nat)
+deriving Repr, DecidableEq
+
+/-- the attributes of the document object the mirror distinguishes -/
+inductive Key where
+  | contents | nextElement | nextSibling | previousElement | previousSibling | parent
+  | tagStack | currentTag | preserveStack | containerStack | mostRecent
+  | builder | markup | currentData | openTagCounter
+deriving Repr, DecidableEq
+
+def Key.name : Key → String
+  | .contents => "contents" | .nextElement => "next_element" | .nextSibling => "next_sibling"
+  | .previousElement => "previous_element" | .previousSibling => "previous_sibling" | .parent => "parent"
+  | .tagStack => "tagStack" | .currentTag => "currentTag" | .preserveStack => "preserve_whitespace_tag_stack"
+  | .containerStack => "string_container_stack" | .mostRecent => "_most_recent_element"
+  | .builder => "builder" | .markup => "markup" | .currentData => "current_data" | .openTagCounter => "open_tag_counter"
+
+structure Field where
+  key : Key
+  val : Val
+deriving Repr, DecidableEq
+
+def Val.ofRefs (k : Nat) (orElse : Val := .flat) : Val := if k = 0 then orElse else .tree k
+
+/-- `self.__dict__` of a BeautifulSoup object: its parser-side attributes after a parse that left `parser`
+    (bs4/__init__.py:666-680 `reset`, :786-824), the Tag attributes of the root (`contents`, the five links), and the
+    rest (flat). `hasKids`: the document has children; `rootLinked`: `next_element` points into the tree (set by
+    `_insert` at position 0 — `soup.insert(0, …)`, or the `append`s of `__deepcopy__` on a copy); `mostRecent`:
+    `_most_recent_element` still names the last parsed element (any parse of non-empty markup). -/
+def soupDict (parser : PState) (hasKids rootLinked mostRecent : Bool) : List Field :=
+  [ ⟨.contents, if hasKids then .tree 1 else .flat⟩,
+    ⟨.nextElement, if rootLinked then .tree 1 else .flat⟩,
+    ⟨.nextSibling, .flat⟩, ⟨.previousElement, .flat⟩, ⟨.previousSibling, .flat⟩, ⟨.parent, .flat⟩,
+    ⟨.tagStack, Val.ofRefs parser.stack.length .self⟩,                  -- `[self] + open tags`
+    ⟨.currentTag, Val.ofRefs parser.stack.length .self⟩,                -- `tagStack[-1]`
+    ⟨.preserveStack, Val.ofRefs parser.pre.length⟩,
+    ⟨.containerStack, Val.ofRefs parser.sc.length⟩,
+    ⟨.mostRecent, if mostRecent then .tree 1 else .flat⟩,
+    ⟨.builder, .flat⟩, ⟨.markup, .flat⟩, ⟨.currentData, .flat⟩, ⟨.openTagCounter, .flat⟩ ]
+
+/-- `BeautifulSoup.__getstate__` (bs4/__init__.py:505-526), statement by statement on the dict -/
+def getstateImpl (cfg : Cfg) (d : List Field) : List Field :=
+  -- d = dict(self.__dict__); the builder is replaced by its class when it is not picklable (flat either way)
+  -- d["contents"] = []; d["markup"] = self.decode()
+  let d1 := d.map (fun f => if f.key == .contents || f.key == .markup then ⟨f.key, .flat⟩ else f)
+  -- for link in (…): d[link] = None              (the repair; absent in the unrepaired form)
+  let d2 := if cfg.dropLinks then
+      d1.map (fun f => if f.key == .nextElement || f.key == .nextSibling || f.key == .previousElement ||
+                          f.key == .previousSibling then ⟨f.key, .flat⟩ else f)
+    else d1
+  -- if "_most_recent_element" in d: del d["_most_recent_element"]
+  d2.filter (fun f => f.key != .mostRecent)
+
+def Val.refs : Val → Nat
+  | .tree k => k
+  | _ => 0
+
+/-- how many references to tree objects a dict holds -/
+def dictRefs (d : List Field) : Nat := (d.map (fun f => f.val.refs)).sum
+
+/-- how many references to tree objects the state dict `__getstate__` returns still holds -/
+def stateRefs (cfg : Cfg) (rootLinked : Bool) (parser : PState) : Nat :=
+  dictRefs (getstateImpl cfg (soupDict parser true rootLinked true))
+
+/-- default pickling of the state dict: the pickler recurses into every object it can reach. From ONE tree object it
+    reaches every other one through `next_element`/`contents`/`parent`: at least one nested `save` per element. With
+    no tree object in the dict it sees only flat values. -/
+def picklerWalk (cfg : Cfg) (rootLinked : Bool) (parser : PState) (l : Loc) : Nat :=
+  if stateRefs cfg rootLinked parser = 0 then 0 else sizeN l.node
 
 /-- `pickle.dumps(soup)`: `__getstate__` (→ `decode`), then the pickler over the dict; `pickle.loads`: `__setstate__`
-    → `reset`, `_feed` on the stored markup -/
-def pickleDepth (cfg : Cfg) (nm : Names) (deep : Nat) (rootLinked : Bool) (l : Loc) : Nat :=
-  max (call (max (call (docDecodeDepth cfg l)) (picklerWalk cfg rootLinked l)))
+    → `reset`, `_feed` on the stored markup. `parser` = the parser-side state the document object carries (for a
+    parsed document: `feedState` of its markup). -/
+def pickleDepth (cfg : Cfg) (nm : Names) (deep : Nat) (rootLinked : Bool) (parser : PState) (l : Loc) : Nat :=
+  max (call (max (call (docDecodeDepth cfg l)) (picklerWalk cfg rootLinked parser l)))
       (call (call (feedDepth nm deep (toEventsL (kidsOf l.node)))))
 
 /-! ### the shape families of the witnesses -/
